@@ -884,6 +884,8 @@ func c20(c *core.Check) {
 		}
 		if already {
 			c.Ok("C20-R1c", key+"|replaced", pos(c, cl.hit.N), "the map entry of the handle is replaced or deleted between its lookup and the close, in the same critical section")
+		} else if ok, why := e.replacedInCallers(cl.f, from, upd, stores, deletes); ok {
+			c.Ok("C20-R1c", key+"|replaced", pos(c, cl.hit.N), why)
 		} else if tr, found := pathAvoiding(g, &from, goals, upd); found {
 			c.Fail("C20-R1c", key+"|replaced", pos(c, cl.hit.N), "after the channel is closed the handle lock can be released (or the function left) with the closed handle still in the map under its name: the fan-out's next send to that program is a send on a closed channel — the loader panics and the line reaches no version", tr...)
 		} else {
@@ -1764,4 +1766,46 @@ func c20closure(roots []*core.Func) map[*core.Func]bool {
 		}
 	}
 	return seen
+}
+
+// replacedInCallers: the close sits in a helper that never touches the handle
+// lock (its callers hold it).  The helper may return with the closed handle
+// still in the map if every caller, from the call on, replaces or deletes an
+// entry of the map before it releases the write lock or returns.
+func (e *c20env) replacedInCallers(f *core.Func, from core.Point, upd []core.Point, stores, deletes []*c20op) (bool, string) {
+	g := f.Graph()
+	if len(e.lockEvs(g)) > 0 || f.Lit != nil {
+		return false, ""
+	}
+	// inside the helper no release can occur; does a path reach an exit without an update?
+	if _, leaves := pathAvoiding(g, &from, core.ExitPoints(normalExits(g)), upd); !leaves {
+		return false, "" // decided locally (every path updates)
+	}
+	sites := e.callSites(f)
+	if len(sites) == 0 {
+		return false, ""
+	}
+	for _, s := range sites {
+		if s.inGo {
+			return false, ""
+		}
+		cg := s.f.Graph()
+		if len(e.lockEvs(cg)) == 0 {
+			return false, "" // a chain of helpers: not followed
+		}
+		var cupd []core.Point
+		for _, set := range [][]*c20op{stores, deletes} {
+			for _, o := range set {
+				if o.f == s.f {
+					cupd = append(cupd, o.hit.P)
+				}
+			}
+		}
+		goals := append(e.releases(cg, "W"), core.ExitPoints(normalExits(cg))...)
+		p := s.p
+		if _, found := pathAvoiding(cg, &p, goals, cupd); found {
+			return false, ""
+		}
+	}
+	return true, "the close is in a helper called with the write lock held; every caller replaces or deletes a map entry before it releases the lock"
 }
